@@ -25,6 +25,7 @@ func init() {
 		s += c05BinaryOp(findFunc(cf, "compiler", "binaryOp"))
 		s += c05VM(findFunc(parseFile("interp/vm.go"), "interp", "execute"))
 		s += c05ValueFacts(parseFile("interp/value.go"))
+		s += c05RecordFacts()
 		return "C05Cmp.lean", s + footer("C05Cmp")
 	})
 }
@@ -409,5 +410,26 @@ func c05ValueFacts(f *ast.File) string {
 		fd := findFunc(f, "", fn)
 		s += fmt.Sprintf("def src_%s : String := %s\n", fn, leanStr(oneLine(fd.Body)))
 	}
+	return s
+}
+
+// c05RecordFacts: the statements of setLine / ensureFields / getField that mention the per-record provenance flags
+// (lineIsTrueStr, fieldsIsTrueStr): the flags must be rebuilt from nothing for every record.
+func c05RecordFacts() string {
+	mention := func(fd *ast.FuncDecl) []string {
+		var res []string
+		for _, st := range fd.Body.List {
+			t := oneLine(st)
+			if strings.Contains(t, "IsTrueStr") {
+				res = append(res, t)
+			}
+		}
+		return res
+	}
+	io := parseFile("interp/io.go")
+	s := "/-- io.go setLine / ensureFields: top-level statements that mention the provenance flags -/\n"
+	s += "def src_setLine_flags : List String := " + leanStrList(mention(findFunc(io, "interp", "setLine"))) + "\n"
+	s += "def src_ensureFields_flags : List String := " + leanStrList(mention(findFunc(io, "interp", "ensureFields"))) + "\n"
+	s += "def src_getField : String := " + leanStr(oneLine(findFunc(parseFile("interp/interp.go"), "interp", "getField").Body)) + "\n"
 	return s
 }
